@@ -112,6 +112,10 @@ def pde_terms(F, state, kw, r, t, gamma):
     f0 = {kk: Sr[kk][:, m] for kk in Sr}
     S = speed_scale(f0)
     out = {}
+    # momentum: the scale is S^2 / r - except where the velocity is EXACTLY uniform and steady on the stencil (its differences are
+    # exact zeros, not round-off): there the equation is a statement about the pressure gradient alone and the thermal speed sets
+    # the scale (Cog10: u = 1e12, thermal terms 1: S^2 / r would drown them)
+    u_flat = np.all(Sr["u"] == Sr["u"][:, m:m + 1], axis=1) & np.all(St["u"] == Sr["u"][:, m:m + 1], axis=1)
     out["mass"] = ([rho_t, u * rho_r, rho * u_r, k * rho * u / r], 1e-3 * np.abs(rho) * S / r)
     if form == "euler":
         p, e = f0["p"], f0["e"]
@@ -120,7 +124,7 @@ def pde_terms(F, state, kw, r, t, gamma):
         with np.errstate(all="ignore"):
             pr = np.where(rho != 0, p_r / rho, 0.0)
             por = np.where(rho != 0, p / rho, 0.0)
-        out["mom"] = ([u_t, u * u_r, pr], 1e-3 * S * S / r)
+        out["mom"] = ([u_t, u * u_r, pr], 1e-3 * np.where(u_flat, np.abs(por), S * S) / r)
         # the scale of the energy equation is (e + p/rho) S / r, not S^3 / r: in a hypersonic flow S^3 would drown every term
         out["ener"] = ([e_t, u * e_r, por * u_r, por * k * u / r], 1e-3 * (np.abs(e) + np.abs(por)) * S / r)
     else:
@@ -129,7 +133,7 @@ def pde_terms(F, state, kw, r, t, gamma):
         T_r, T_t = M.dr(Sr, "T", h), M.dt(St, "T", ht)
         with np.errstate(all="ignore"):
             lr = np.where(rho != 0, rho_r / rho, 0.0)
-        out["mom"] = ([u_t, u * u_r, G * T * lr, G * T_r], 1e-3 * S * S / r)
+        out["mom"] = ([u_t, u * u_r, G * T * lr, G * T_r], 1e-3 * np.where(u_flat, G * np.abs(T), S * S) / r)
         cv = G / (gamma - 1.0)
         fl = 0 * r
         if form in ("cogdiv", "cogfull"):
